@@ -6,6 +6,7 @@ classes and the outcome compared with an independent recogniser (vf.ref.tables.c
 """
 
 import itertools
+import zlib
 
 from .. import core, sweep
 from ..engine import rewrite
@@ -149,10 +150,10 @@ def _classes():
     return _CLS
 
 
-def observe(major, s):
+def observe(major, s, wrap=None):
     cls, Mal, Man, Err, Root = _classes()[major]
     try:
-        cls(s)
+        cls(s if wrap is None else wrap(s))
     except BaseException as e:  # noqa
         if isinstance(e, Mal) and isinstance(e, Err) and isinstance(e, Root):
             return "MALFORMED"
@@ -171,7 +172,19 @@ def judge_string(s):
         got = observe(major, s)
         if got != want:
             out.append((major, want, got))
+        elif zlib.crc32(s.encode("utf-8", "surrogatepass")) % 8 == major:
+            # every eighth string per class: the same characters as an instance of a str subclass
+            got = observe(major, s, _text)
+            if got != want:
+                out.append((major, want, got + " (argument is an instance of a str subclass)"))
     return out
+
+
+def _text(s):
+    from .. import observe as O
+    t = O.Text(s)
+    t.origin = "somewhere"
+    return t
 
 
 def judge(acc, s):
@@ -184,7 +197,7 @@ def judge(acc, s):
     diffs = judge_string(s)
     for major, want, got in diffs:
         sweep.bad(acc, {"what": "CVSS%d(%r): grammar says %s, constructor says %s" % (major, s, want, got),
-                        "kind": "accept", "input": s, "major": major,
+                        "kind": "accept", "input": s, "major": major, "strsub": "str subclass" in got,
                         "signature": {"kind": "accept"}})
     if not diffs:
         kinds = tuple(T.classify_class(m, s) for m in (2, 3, 4))
@@ -360,7 +373,7 @@ def run(ctx, res):
 
 def replay(case):
     s, major = case["input"], case["major"]
-    want, got = T.classify_class(major, s), observe(major, s)
+    want, got = T.classify_class(major, s), observe(major, s, _text if case.get("strsub") else None)
     return want != got, "grammar %s, constructor %s" % (want, got)
 
 
